@@ -695,6 +695,13 @@ M("r14-cxx-slot-address-before-reserve", ["C16"], "break",
     "  vlo_t **vlo_ptr;\n\n  vlo_ptr = &((vlo_t **) vlo_array->begin ())[vlo_array_len];\n  if ((unsigned) vlo_array_len >= vlo_array->length () / sizeof (vlo_t *))\n    {\n      vlo_array->expand (sizeof (vlo_t *));\n      vlo_array->shorten (sizeof (vlo_t *));")],
   "vlo_array_expand/")
 
+M("r16-back-frontier-keeps-temporary-token", ["C06", "C12"], "break",
+  [("yaep.c", "\t      set_original_set_bound (state.last_original_pl_el);\n\t      tok_curr = saved_tok_curr;", "\t      set_original_set_bound (state.last_original_pl_el);")], "back-frontier-restores-tok_curr")
+M("r16-head-frontier-stops-before-end-marker", ["C06", "C12"], "break",
+  [("yaep.c", "\t  tok_curr++;\n\t  if (tok_curr < toks_len)", "\t  tok_curr++;\n\t  if (tok_curr < toks_len - 1)")], "head-frontier-up-to-end-marker")
+M("r16-head-frontier-le-form-benign", ["C06", "C12"], "benign",
+  [("yaep.c", "\t  tok_curr++;\n\t  if (tok_curr < toks_len)", "\t  tok_curr++;\n\t  if (tok_curr <= toks_len - 1)")])
+
 # ---- R8 / R2f (C16, C19) ----------------------------------------------------------------------------
 M("r8-revert-F14", ["C19", "C16"], "break", [("hashtab.cpp", "		  entry_ptr = first_deleted_entry_ptr;\n		  *entry_ptr = EMPTY_ENTRY;", "		  entry_ptr = first_deleted_entry_ptr;\n		  *entry_ptr = DELETED_ENTRY;")], "find_hash_table_entry~")
 M("r2f-revert-F15", ["C19", "C16"], "break", [("hashtab.cpp", "  ::operator delete (new_htab);", "  yaep_free (new_htab->alloc, new_htab);")], "expand_hash_table/new")
